@@ -230,7 +230,7 @@ func (c *GenCase) expected(area string, caseDir string, firsts [][]string) *mode
 		}
 	}
 	// one output path, two plugins
-	owner := map[string]string{}
+	owner := map[string]Plugin{}
 	for i, p := range c.Plugins {
 		abs := c.absOut(area, caseDir, p)
 		for _, f := range perPlugin[i] {
@@ -238,10 +238,15 @@ func (c *GenCase) expected(area string, caseDir string, firsts [][]string) *mode
 				continue
 			}
 			k := abs + "\x00" + f.name
-			if o, dup := owner[k]; dup && o != p.Opt {
-				return fail("duplicate-path-accepted", fmt.Sprintf("plugins %s and %s both produce %s in %s", o, p.Opt, f.name, abs))
+			if o, dup := owner[k]; dup && o.Opt != p.Opt {
+				key := "duplicate-path-accepted"
+				if filepath.Clean(o.Out) != filepath.Clean(p.Out) {
+					// the same directory, once relative and once absolute
+					key += ":abs-vs-relative-out"
+				}
+				return fail(key, fmt.Sprintf("plugins %s (out %q) and %s (out %q) both produce %s in %s", o.Opt, o.Out, p.Opt, p.Out, f.name, abs))
 			}
-			owner[k] = p.Opt
+			owner[k] = p
 		}
 	}
 	for i, p := range c.Plugins {
@@ -730,6 +735,9 @@ func (c *GenCase) classifyL2(r *evid.Recorder, exp *model, nontrivialL1 bool) {
 			r.Class("l2:out:jar")
 		default:
 			r.Class("l2:out:dir")
+		}
+		if strings.HasPrefix(p.Out, absToken) {
+			r.Class("l2:out:absolute-spelling")
 		}
 		if p.PerRequest {
 			r.Class("l2:per-request-names")
